@@ -35,6 +35,7 @@ class Recorder(object):
         self.tmpdir = os.path.join(root, "tmp")
         self.tmpnames = set()       # paths handed out by mkstemp (relative to root)
         self.intended = b""         # everything the serializer handed to the temporary file
+        self.equiv = None           # optional content equivalence for formats that are not byte-stable
         self.base = self.listing()
 
     # ---- snapshots ----
@@ -57,6 +58,8 @@ class Recorder(object):
             return "old"
         if (self.new is not None and content == self.new) or (self.intended and content == self.intended):
             return "new"
+        if self.equiv is not None and self.new is not None and self.equiv(content, self.new):
+            return "new"          # formats whose text is not byte-stable (RDF): the same graph
         if self.new is None:
             return "unknown"
         return "partial"
@@ -201,6 +204,18 @@ def run_save(doc, fmt, name_class, existing, cross_fs, fault, args=None):
         with io.open(named, "wb") as fh:
             fh.write(old)
     rec = Recorder(root, named, old, new_bytes, fault)
+    if fmt == "rdf":
+        def _same_graph(a, b):
+            from rdflib import ConjunctiveGraph
+            from rdflib.compare import isomorphic
+            try:
+                g1, g2 = ConjunctiveGraph(), ConjunctiveGraph()
+                g1.parse(data=a.decode("utf-8"), format="trig")
+                g2.parse(data=b.decode("utf-8"), format="trig")
+                return isomorphic(g1, g2)
+            except Exception:
+                return False
+        rec.equiv = _same_graph
     real = dict(mkstemp=tempfile.mkstemp, fdopen=os.fdopen, move=shutil.move, open=builtins.open,
                 ioopen=io.open, rename=os.rename, replace=os.replace, copyfile=shutil.copyfile,
                 ntf=tempfile.NamedTemporaryFile, tempdir=tempfile.tempdir, unlink=os.unlink,
@@ -225,7 +240,18 @@ def run_save(doc, fmt, name_class, existing, cross_fs, fault, args=None):
         f = real["open"](file, mode, *a, **kw)
         if is_write_mode(mode) and isinstance(file, (str, bytes)) and \
                 os.path.abspath(file).startswith(root):
-            role = "dest" if os.path.abspath(file) == named else "file"
+            if os.path.abspath(file) == named:
+                role = "dest"
+            elif os.path.relpath(os.path.abspath(file), root) not in rec.base:
+                # a NEW file that is not the destination: a scratch file of the protocol, whatever
+                # it is called and however it was created (mkstemp or a plain open)
+                role = "tmp"
+                rec.tmp_samedir = os.path.dirname(os.path.abspath(file)) == os.path.dirname(named)
+                rec.tmpnames.add(os.path.relpath(os.path.abspath(file), root))
+                rec.event("mkstemp", samedir=rec.tmp_samedir)
+                return WriteProxy(rec, f, role)
+            else:
+                role = "file"
             rec.event("open", role=role)
             return WriteProxy(rec, f, role)
         return f
